@@ -5,7 +5,7 @@ export GOFLAGS=-mod=mod GOPROXY=off GOSUMDB=off GOTOOLCHAIN=local
 for dir in /verif/seeded/${1}*/; do
   name=$(basename $dir)
   props=$(python3 -c "import json;print(' '.join(json.load(open('$dir/meta.json')).get('detected_by',[])))")
-  d=$(mktemp -d /tmp/am-XXXX)
+  d=$(mktemp -d /tmp/am-XXXX) && [ -n "$d" ] || { echo "no scratch directory (disk full?)"; exit 2; }
   git -C /repo worktree add -q --detach $d HEAD || continue
   if ( cd $d && ( git apply $dir/patch.diff 2>/dev/null || git apply --3way $dir/patch.diff 2>/dev/null ) ); then
     for p in $props; do
